@@ -1,1 +1,5 @@
 import Proofs.Base64
+import Proofs.Monad
+import Proofs.VerifyAuth
+import Proofs.AuthData
+import Proofs.Cose
